@@ -93,11 +93,15 @@ var (
 
 // csvRecordsWriter is an internal container to move CSV records back and forth
 type csvRecordsWriter struct {
-	i       int
-	records [][]string
+	i            int
+	records      [][]string
+	cloneRecords bool
 }
 
 func (w *csvRecordsWriter) Write(record []string) error {
+	if w.cloneRecords {
+		record = append(make([]string, 0, len(record)), record...)
+	}
 	w.records = append(w.records, record)
 
 	return nil
